@@ -106,6 +106,8 @@ def stream_bytes(s: Dict[str, Any]):
                 text += J + '"method":"notifications/message","params":{"i":%d}}\n' % i
         text += SENTINEL + "\n"
         return text.encode("utf-8"), names
+    if s["table"] == "big":
+        return big_stream(s["total"]), [f"big{s['total']}"]
     table = TABLES[s["table"]]
     units = [(n, t, term) for (n, t) in table for term in ("LF", "CRLF")]
     text = ""
@@ -116,6 +118,48 @@ def stream_bytes(s: Dict[str, Any]):
         names.append(f"{n}/{term}")
     text += SENTINEL + "\n"
     return text.encode("utf-8"), names
+
+
+FULL_READ = 65536   # what one read of the child's pipe returns at most
+_BIG: Dict[int, bytes] = {}
+EXTRA_LINE = (J + '"id":"EXTRA","result":{"after":"the burst"}}\n').encode("utf-8")
+
+
+def big_stream(total: int) -> bytes:
+    """A stream of exactly 'total' bytes: long responses with multi-byte text, CRLF-terminated notifications and junk
+    lines in rotation (about 3 KB per line, fewer than 100 messages), one filler response that makes the size come out
+    exactly, and the sentinel line last."""
+    if total in _BIG:
+        return _BIG[total]
+    tail = (SENTINEL + "\n").encode("utf-8")
+    parts: List[bytes] = []
+    size = len(tail)
+    i = 0
+    blob = "\u00e9\u20ac\U0001F600 x" * 300
+    while True:
+        k = i % 3
+        if k == 0:
+            line = (J + '"id":%d,"result":{"t":"%s"}}\n' % (i, blob)).encode("utf-8")
+        elif k == 1:
+            line = (J + '"method":"notifications/big","params":{"i":%d,"t":"%s"}}\r\n' % (i, blob[:900])).encode("utf-8")
+        else:
+            line = ("\u00fc junk %d %s {\n" % (i, blob[:600])).encode("utf-8")
+        if size + len(line) + 200 > total:
+            break
+        parts.append(line)
+        size += len(line)
+        i += 1
+    head = (J + '"id":"filler","result":{"pad":"').encode("utf-8")
+    end = b'"}}\n'
+    pad = total - size - len(head) - len(end)
+    if pad < 0:
+        raise core.HarnessError(f"big stream of {total} bytes cannot be built")
+    parts.append(head + b"p" * pad + end)
+    data = b"".join(parts) + tail
+    if len(data) != total:
+        raise core.HarnessError("big stream size mismatch")
+    _BIG[total] = data
+    return data
 
 
 def batches_accepted(version) -> bool:
@@ -168,6 +212,12 @@ def run_one(ctl: explorer.Ctl, cfg: Dict[str, Any]) -> Dict[str, Any]:
     cuts = cfg["cuts"]
     bounds = [0] + list(cuts) + [len(data)]
     chunks = [data[a:b] for a, b in zip(bounds, bounds[1:])]
+    if cfg.get("ending") == "one-more-line":
+        data = data + EXTRA_LINE
+        chunks = chunks + [EXTRA_LINE]
+    close_at = cfg.get("close_write_at")          # the user closes the write stream before chunk number close_at
+    exit_at = cfg.get("exit_at")                  # chunks[exit_at:] are queued at once and the child exits right away
+    drain_mode = cfg.get("drain")                 # None | "side-channel-never" | "main-after-each-chunk"
     loop = new_loop(horizon=30 if not cfg.get("listener") else 400)
     q = seams.Quiescence(loop)
     proc = seams.FakeProcess()
@@ -199,8 +249,41 @@ def run_one(ctl: explorer.Ctl, cfg: Dict[str, Any]) -> Dict[str, Any]:
 
                     listener = loop.create_task(listen())
                     await q.settle()                           # the listener is parked in receive() before any byte arrives
-                for ch in chunks:
+                def drain_main():
+                    try:
+                        while True:
+                            got.append(read.receive_nowait())
+                    except anyio.WouldBlock:
+                        pass
+                    except (anyio.EndOfStream, anyio.ClosedResourceError):
+                        # the read stream has ended: legitimate only once the child's stdout has
+                        if proc.returncode is None and not proc.stdout._eof:
+                            info["read_stream_ended_while_stdout_open"] = True
+
+                for i, ch in enumerate(chunks):
+                    if close_at == i:
+                        await write.aclose()
+                        await q.settle()
+                    if exit_at is not None and i == exit_at:
+                        for rest in chunks[i:]:
+                            proc.stdout.feed(rest)
+                        proc.exit(0)                           # everything it wrote is in the pipe; then it is gone
+                        await q.settle()
+                        break
                     proc.stdout.feed(ch)
+                    await q.settle()
+                    if drain_mode == "main-after-each-chunk":
+                        for _ in range(6):
+                            n0 = len(got)
+                            drain_main()
+                            await q.settle()
+                            if len(got) == n0:
+                                break
+                if close_at == len(chunks):
+                    await write.aclose()
+                    await q.settle()
+                if cfg.get("ending") == "eof" and proc.returncode is None:
+                    proc.exit(0)
                     await q.settle()
                 if listener is not None:
                     import asyncio as _aio
@@ -210,17 +293,22 @@ def run_one(ctl: explorer.Ctl, cfg: Dict[str, Any]) -> Dict[str, Any]:
                     listener.cancel()
                     await q.settle()
                 # drain until nothing more arrives (a reader blocked on a full stream continues once there is room)
+                def drain_notes():
+                    try:
+                        while True:
+                            notes.append(client.notifications.receive_nowait())
+                    except (anyio.WouldBlock, anyio.EndOfStream, anyio.ClosedResourceError):
+                        pass
+
                 for _ in range(20):
                     n0 = len(got) + len(notes)
-                    for stream, sink in ((read, got), (client.notifications, notes)):
-                        try:
-                            while True:
-                                sink.append(stream.receive_nowait())
-                        except (anyio.WouldBlock, anyio.EndOfStream, anyio.ClosedResourceError):
-                            pass
+                    drain_main()
+                    if drain_mode is None:
+                        drain_notes()
                     await q.settle()
                     if len(got) + len(notes) == n0:
                         break
+                drain_notes()                                   # nobody looked at the side channel until now
                 info["reader_tasks"] = len([t for t in __import__("asyncio").all_tasks(loop) if not t.done()])
             info["spawned"] = len(pp.spawned)
 
@@ -229,9 +317,22 @@ def run_one(ctl: explorer.Ctl, cfg: Dict[str, Any]) -> Dict[str, Any]:
     loop.abandon()
     obs: Dict[str, Any] = {"status": status, "lines": names, "cuts": cuts}
     vtag: Dict[str, Any] = {}
+    if close_at is not None:
+        where = "before-any-line" if close_at == 0 else ("after-all-lines" if close_at >= len(chunks) else "between-reads")
+        obs["close_write_at"] = close_at
+        vtag = {"user_closed_write_stream": where}
+    if exit_at is not None:
+        obs["exit_at"] = exit_at
+        vtag = {**vtag, "child_exited": "with-its-last-writes-still-in-the-pipe"}
+    if cfg.get("ending"):
+        obs["ending"] = cfg["ending"]
+        vtag = {**vtag, "after_the_last_read": cfg["ending"]}
+    if drain_mode:
+        obs["drain"] = drain_mode
+        vtag = {**vtag, "consumer": drain_mode}
     if cfg.get("listener"):
         obs["listener"] = cfg["listener"]
-        vtag = {"notification_listener": cfg["listener"]}
+        vtag = {**vtag, "notification_listener": cfg["listener"]}
     if "version" in cfg:
         obs["version"] = cfg["version"]
         vtag = {**vtag, "batches": "accepted" if batches_accepted(cfg["version"]) else "rejected"}
@@ -279,8 +380,11 @@ def run_one(ctl: explorer.Ctl, cfg: Dict[str, Any]) -> Dict[str, Any]:
         else:
             cls = "altered-message"
             det = {"cut": where_cut()}
+        def brief(xs):
+            return xs if sum(len(x) for x in xs) < 1500 else f"{len(xs)} messages ({[x[:60] for x in xs[:2]]} ...)"
         viol.append({"sig": {"class": cls, **det, **vtag},
-                     "msg": f"lines={names} cuts={cuts} version={cfg.get('version')}: delivered {got_ids} expected {exp_ids}"})
+                     "msg": f"lines={names} cuts={cuts if len(cuts) < 12 else str(cuts[:6]) + '...'} version={cfg.get('version')}: "
+                            f"delivered {brief(got_ids)} expected {brief(exp_ids)}"})
     # the notification side channel is "offered" (best effort, 100 slots, never back-pressures): when more than 100
     # notifications are pending there, it must hold a prefix of them; otherwise all of them
     if len(exp_notes) > 100 and cfg.get("listener"):
@@ -296,10 +400,13 @@ def run_one(ctl: explorer.Ctl, cfg: Dict[str, Any]) -> Dict[str, Any]:
     if not (len(dnotes) == len(exp_notes_cmp) and all(strict_eq(norm(a), norm(b)) for a, b in zip(dnotes, exp_notes_cmp))):
         viol.append({"sig": {"class": "notification-stream-mismatch", "cut": where_cut(), **vtag},
                      "msg": f"lines={names} cuts={cuts} version={cfg.get('version')}: notification stream {dnotes} expected {exp_notes}"})
+    if info.get("read_stream_ended_while_stdout_open"):
+        viol.append({"sig": {"class": "read-stream-ended-while-the-child-can-still-write", **vtag},
+                     "msg": f"lines={names} cuts={cuts}: the read stream reported its end although the child's stdout is open"})
     if errors:
         viol.append({"sig": {"class": "loop-error"}, "msg": f"{errors[:2]}"})
     obs["outcome"] = f"delivered={len(delivered)}/notes={len(dnotes)}"
-    obs["delivered"] = delivered
+    obs["delivered"] = delivered if len(data) < 20000 else explorer.digest_of(delivered)
     obs["violations"] = viol
     obs["counters"] = {"cut:" + where_cut(): 1}
     return obs
@@ -655,6 +762,72 @@ def configs_for(tier: str):
             g.append({"stream": st, "cuts": [], "listener": lst})
             g.append({"stream": st, "cuts": list(range(64, L, 64)), "listener": lst})
     groups["somebody-listens-on-the-notification-stream"] = g
+    # (9) the user closes the write stream (half-close) before any line, between reads, after all: what the child
+    #     writes afterwards is still delivered and the read stream does not end
+    g = []
+    for s in long1:
+        data = stream_bytes(s)[0]
+        ends = [i + 1 for i, x in enumerate(data) if x == 0x0A][:-1]
+        cutsets = [[]] + [[c] for c in sorted(set(interesting_positions(data) + ends))] + ([[c] for c in range(1, len(data))] if tier == "thorough" else [])
+        for cs in cutsets:
+            for at in range(len(cs) + 2):
+                g.append({"stream": s, "cuts": cs, "close_write_at": at})
+    for s in long2:
+        data = stream_bytes(s)[0]
+        ends = [i + 1 for i, x in enumerate(data) if x == 0x0A][:-1]
+        for at in (0, 1):
+            g.append({"stream": s, "cuts": [], "close_write_at": at})
+        for at in (0, 1, 2, 3):
+            g.append({"stream": s, "cuts": ends, "close_write_at": at})
+    for nb in (101, 260):
+        st = {"table": "burst", "n": nb}
+        L = len(stream_bytes(st)[0])
+        for cs in ([], [L // 3, 2 * L // 3]):
+            for at in range(len(cs) + 2):
+                g.append({"stream": st, "cuts": cs, "close_write_at": at})
+    groups["user-closes-the-write-stream"] = g
+    # (10) reads of exactly the maximum size: a burst that ends on one, then silence / end of file / one more line
+    g = []
+    F = FULL_READ
+    for total, cutsets in ((F, [[], [F - 1], [1], [F // 2]]),
+                           (2 * F, [[F], [F, 2 * F - 1], [1, F + 1], [F // 2, F // 2 + F]]),
+                           (F + 100, [[100], [F], [50, 100]]),
+                           (2 * F + 7, [[7, F + 7], [F, 2 * F]])):
+        st = {"table": "big", "total": total}
+        for cs in cutsets:
+            for ending in ("silence", "eof", "one-more-line"):
+                g.append({"stream": st, "cuts": cs, "ending": ending})
+    groups["reads-of-the-maximum-size"] = g
+    # (11) the child exits right after its last write while the reader is behind: chunks[k:] are in the pipe when it goes
+    g = []
+    for s in long1:
+        data = stream_bytes(s)[0]
+        for c in (range(1, len(data)) if tier == "thorough" else sorted(set(interesting_positions(data) + [len(data) // 2, len(data) - 38]))):
+            for k in (0, 1):
+                g.append({"stream": s, "cuts": [c], "exit_at": k})
+        g.append({"stream": s, "cuts": [], "exit_at": 0})
+    for s in long2:
+        data = stream_bytes(s)[0]
+        ends = [i + 1 for i, x in enumerate(data) if x == 0x0A][:-1]
+        for k in range(len(ends) + 1):
+            g.append({"stream": s, "cuts": ends, "exit_at": k})
+    for nb in (99, 101, 150, 260):
+        st = {"table": "burst", "n": nb}
+        L = len(stream_bytes(st)[0])
+        for cs in ([L // 3, 2 * L // 3], list(range(64, L, 64)), list(range(997, L, 997))):
+            for k in sorted({0, 1, len(cs) // 2, len(cs)}):
+                g.append({"stream": st, "cuts": cs, "exit_at": k})
+    groups["child-exits-with-output-still-in-the-pipe"] = g
+    # (12) nobody ever reads client.notifications: more than 100 notifications, in one go or accumulated over
+    #      separate reads with the main stream drained in between
+    g = []
+    for nb in (150, 170, 260, 400):
+        st = {"table": "burst", "n": nb}
+        L = len(stream_bytes(st)[0])
+        for cs in ([], [L // 3, 2 * L // 3], list(range(64, L, 64)), list(range(997, L, 997))):
+            for dm in ("side-channel-never", "main-after-each-chunk"):
+                g.append({"stream": st, "cuts": cs, "drain": dm})
+    groups["notification-side-channel-never-read"] = g
     if tier == "thorough":
         # every triple of cuts on the short streams that begin with a multi-byte junk line
         g = []
@@ -721,7 +894,14 @@ def run(tier: str, only=None) -> core.Result:
         "terminator, third cut at every later position (thorough: every second line of the alphabet, and every triple of cuts "
         "on short such streams); a consumer of client.notifications in {parked in receive(), busy 0.5 virtual s between "
         "receives, gone after the first item} x one-line streams (uncut + cuts inside characters / CRLF; thorough every cut), "
-        "two-line streams uncut, bursts of 99/101/260 lines; two connections alive on one loop: pairs of one-line streams x a cut of A "
+        "two-line streams uncut, bursts of 99/101/260 lines; the user closing the write stream before any line / between "
+        "reads / after all (one-line streams uncut and cut inside characters, CRLF and at line ends - thorough every cut -, "
+        "two-line streams uncut and cut at line ends, bursts); streams of exactly 65536, 131072, 65636 and 131079 bytes "
+        "(about 3 KB per line, multi-byte text, CRLF and LF, junk) cut into reads of exactly 65536 / 65535+1 / 1+65535 / "
+        "100+65536 / 65536+100 / 2 x 65536 ... followed by silence, end of file, or one more line; the child exiting with "
+        "chunks k.. of its output still in the pipe (every k) on one- and two-line streams and bursts of 99..260 lines; "
+        "bursts of 150..400 lines with client.notifications never read, the main stream drained at the end or after every "
+        "read; two connections alive on one loop: pairs of one-line streams x a cut of A "
         "inside every multi-byte character / CRLF (thorough: every position) x B uncut or cut likewise x every interleaving "
         "of A's feeds with B's start and feeds; "
         "distinct = distinct observation digests"
@@ -733,6 +913,10 @@ def run(tier: str, only=None) -> core.Result:
         "array lines: while batches are accepted (no version negotiated or one before 2025-06-18) the valid members are "
         "delivered in order, otherwise nothing of the array; what is written back to the child is C13's subject and not judged here",
         "two live connections are entered and left properly nested in one task (A, then B; B left first)",
+        "the scripted stdout returns a fed chunk whole, so a chunk models one read; chunks are at most 65536 bytes in the "
+        "maximum-size group; 'silence' means the harness looks at the streams after the loop has gone idle and nothing "
+        "else happens",
+        "a child that exits has written everything before (its output is queued in the scripted pipe, end-of-file after it)",
         "with a consumer on the notification side channel and more than 100 notifications pending, the side channel may drop "
         "in the middle: then at least 100 of them, each once, in order, are required there; the main read stream is judged "
         "exactly as without a consumer",
